@@ -4,12 +4,13 @@ C07 — the resampled timeline is aligned, gap-free and shared by all series.
 The machine (`Resampler.step`) is the one of the source tree being checked: the alignment arithmetic, the window
 advance and the fact whether `resample()` still reads the live series dict after the gather
 (`Extracted.Resampling.gatherOverSnapshot`) are regenerated from `_resampling.py` on every run.  On a tree where the
-dict is re-read after the gather (the pinned tree, DESIGN §5 #16) `C07_source_gathers_over_snapshot` is false and
-this file does not build; `C07_live_dict_kills_loop` shows, for every build, what then happens on the witness.
+dict is re-read after the gather (DESIGN §5 #16, fixed in 69297d9) `C07_source_gathers_over_snapshot` is false, on
+a tree where only error-free ticks advance the window `C07_source_advances_on_error` is false, and this file does
+not build; `C07_live_dict_kills_loop` / `C07_no_advance_on_error_duplicates` show, for every build, what then happens.
 
 All theorems quantify over every period > 0, every `align_to` (past, future, `None`), every creation instant and
-EVERY schedule (`List Event`: tick starts/ends, series added/removed anywhere, in particular while a gather is in
-flight).  Lateness of the timer or of the sinks only decides *when* the events happen, never which timestamps are
+EVERY schedule (`List Event`: tick starts/ends, series added/removed/failing anywhere, in particular while a gather
+is in flight, ticks ending with a `ResamplingError`, the resampling actor's remove-and-restart).  Lateness of the timer or of the sinks only decides *when* the events happen, never which timestamps are
 handed out, so it needs no parameter here; how the real `Timer` turns lateness into events is sampled by the harness.
 -/
 import Frequenz.Lemmas.Resampler
@@ -48,41 +49,63 @@ theorem C07_timer_aligned (now loopNow period : Int) (align : Option Int) :
       = (calculateWindowEnd now period align).1 :=
   timer_due_at_windowEnd now loopNow period align
 
-/-- No skip, no duplicate, no reorder: under every schedule the timestamps handed out are `w0, w0+p, w0+2p, …`. -/
+/-- The checked source advances the window end before it raises the errors of a tick. -/
+theorem C07_source_advances_on_error : advanceOnError = true := rfl
+
+/-- No skip, no duplicate, no reorder: under every schedule — ticks, series added/removed/failing anywhere, ticks
+that end with a `ResamplingError`, the actor's remove-and-restart — the timestamps handed out are
+`w0, w0+p, w0+2p, …`. -/
 theorem C07_consecutive (period w0 : Int) (es : List Event) :
     (run period (init w0) es).2.map (·.ts) = expected w0 period (run period (init w0) es).2.length := by
   unfold run
-  rw [C07_source_gathers_over_snapshot]
-  exact (run_snapshot period es (init w0) rfl).2
+  rw [C07_source_gathers_over_snapshot, C07_source_advances_on_error]
+  exact (run_snapshot period es (init w0) rfl).2.1
 
-/-- The loop task survives every schedule (series may come and go while a gather is in flight). -/
+/-- The loop task never ends with an unexpected exception (series may come and go while a gather is in flight). -/
 theorem C07_never_dies (period w0 : Int) (es : List Event) : (run period (init w0) es).1.dead = false := by
   unfold run
-  rw [C07_source_gathers_over_snapshot]
+  rw [C07_source_gathers_over_snapshot, C07_source_advances_on_error]
   exact (run_snapshot period es (init w0) rfl).1
 
-/-- Every series registered when a tick starts receives that tick's timestamp — the same for all of them, namely
-the next grid point after the ticks handed out so far — and nobody else does. -/
+/-- Every healthy series registered when a tick starts receives that tick's timestamp — the same for all of them,
+namely the next grid point after the ticks handed out so far (also right after an error tick and a restart) — and
+nobody else does. -/
 theorem C07_shared (period w0 : Int) (es : List Event)
-    (hfree : (run period (init w0) es).1.inflight = none) :
+    (hfree : (run period (init w0) es).1.inflight = none) (hrun : (run period (init w0) es).1.stopped = false) :
     ∃ tk, (step period (run period (init w0) es).1 .tickStart).2 = [tk] ∧
       tk.ts = w0 + ((run period (init w0) es).2.length : Int) * period ∧
-      ∀ s, s ∈ tk.recipients ↔ registered s es = true := by
+      ∀ s, s ∈ tk.recipients ↔ status s es = (true, false) := by
   have hd := C07_never_dies period w0 es
-  have hn := run_snapshot_nextTs period es (init w0) rfl
+  have hn := (run_snapshot period es (init w0) rfl).2.2
   unfold run step at *
-  rw [C07_source_gathers_over_snapshot] at *
-  refine ⟨⟨(runWith true period (init w0) es).1.windowEnd, (runWith true period (init w0) es).1.series⟩, ?_, ?_, ?_⟩
-  · simp [stepWith, hd, hfree]
+  rw [C07_source_gathers_over_snapshot, C07_source_advances_on_error] at *
+  refine ⟨⟨(runWith true true period (init w0) es).1.windowEnd,
+    (runWith true true period (init w0) es).1.series.filter
+      (fun s => !(runWith true true period (init w0) es).1.failing.contains s)⟩, ?_, ?_, ?_⟩
+  · simp [stepWith, hd, hfree, hrun]
   · have h0 : nextTs period (init w0) = w0 := rfl
     rw [h0] at hn
     simp only [nextTs, hfree, Option.isSome_none, Bool.false_eq_true, if_false] at hn
     exact hn
   · intro s
-    have := series_registered true period s es (init w0)
-    simpa [registered, init] using this
+    have hst := series_status true true period s es (init w0)
+    have h0 : (decide (s ∈ (init w0).series), decide (s ∈ (init w0).failing)) = (false, false) := by simp [init]
+    rw [h0] at hst
+    unfold status
+    rw [← hst]
+    simp only [List.mem_filter, Bool.not_eq_true', List.contains_eq_mem, Prod.mk.injEq, decide_eq_true_eq,
+      decide_eq_false_iff_not]
 
-example : (run 1000000 (init 1000000) [.add 0, .tickStart, .add 1, .tickEnd]).1.inflight = none := by decide
+example : (run 1000000 (init 1000000) [.add 0, .tickStart, .add 1, .tickEnd]).1.inflight = none ∧
+    (run 1000000 (init 1000000) [.add 0, .tickStart, .add 1, .tickEnd]).1.stopped = false := by decide
+
+/-- A tick that ends with an error still consumes its window, and the restart keeps the window end: series 1
+fails, the tick at `w0` ends with a `ResamplingError`, the actor removes series 1 and restarts — series 0 goes on
+with `w0 + p`, `w0 + 2p`. -/
+example : (run 1000000 (init 1000000) [.add 0, .add 1, .fail 1, .tickStart, .tickEnd, .restart [1],
+      .tickStart, .tickEnd, .tickStart]).2
+    = [{ ts := 1000000, recipients := [0] }, { ts := 2000000, recipients := [0] }, { ts := 3000000, recipients := [0] }] := by
+  decide
 
 /-- The full statement. -/
 def C07_statement : Prop :=
@@ -93,11 +116,11 @@ def C07_statement : Prop :=
     (∀ a, align = some a → (we.1 - a) % period = 0) ∧ (align = none → we.1 = now + period) ∧
     now + period ≤ we.1 ∧ we.1 < now + 2 * period ∧
     now + (firstTickTime loopNow period we.2 - loopNow) = we.1 ∧
-    -- no tick skipped, duplicated or reordered, whatever the schedule; the loop never stops
+    -- no tick skipped, duplicated or reordered, whatever the schedule (failures and restarts included)
     r.2.map (·.ts) = expected we.1 period r.2.length ∧ r.1.dead = false ∧
-    -- all series registered at a tick receive that tick's timestamp
-    (r.1.inflight = none → ∃ tk, (step period r.1 .tickStart).2 = [tk] ∧
-        tk.ts = we.1 + (r.2.length : Int) * period ∧ ∀ s, s ∈ tk.recipients ↔ registered s es = true)
+    -- all healthy series registered at a tick receive that tick's timestamp
+    (r.1.inflight = none → r.1.stopped = false → ∃ tk, (step period r.1 .tickStart).2 = [tk] ∧
+        tk.ts = we.1 + (r.2.length : Int) * period ∧ ∀ s, s ∈ tk.recipients ↔ status s es = (true, false))
 
 theorem C07_full : C07_statement := by
   intro period now loopNow align es hp
@@ -107,14 +130,21 @@ theorem C07_full : C07_statement := by
   · intro a ha; subst ha; exact C07_aligned now period a
   · intro ha; subst ha; exact C07_aligned_none now period
 
-/-- What re-reading the live dict does (the pinned tree): period 1 s, first series' sink still busy when a second
-series is added → the task dies at the end of the first tick; the first series has received `[1 s]` only. -/
+/-- What re-reading the live dict does (the tree before fix 69297d9): period 1 s, first series' sink still busy
+when a second series is added → the task dies at the end of the first tick; the first series has received `[1 s]`
+only. -/
 theorem C07_live_dict_kills_loop :
-    (runWith false 1000000 (init 1000000) [.add 0, .tickStart, .add 1, .tickEnd, .tickStart, .tickEnd, .tickStart]).1.dead = true ∧
-    (runWith false 1000000 (init 1000000) [.add 0, .tickStart, .add 1, .tickEnd, .tickStart, .tickEnd, .tickStart]).2
+    (runWith false true 1000000 (init 1000000) [.add 0, .tickStart, .add 1, .tickEnd, .tickStart, .tickEnd, .tickStart]).1.dead = true ∧
+    (runWith false true 1000000 (init 1000000) [.add 0, .tickStart, .add 1, .tickEnd, .tickStart, .tickEnd, .tickStart]).2
       = [{ ts := 1000000, recipients := [0] }] := by decide
 
-/-- … and the same schedule under snapshot semantics. -/
-example : (runWith true 1000000 (init 1000000) [.add 0, .tickStart, .add 1, .tickEnd, .tickStart, .tickEnd, .tickStart]).2
+/-- What advancing the window only on error-free ticks does: after the error tick and the restart the surviving
+series receives `w0` a second time and stays one period behind. -/
+theorem C07_no_advance_on_error_duplicates :
+    (runWith true false 1000000 (init 1000000) [.add 0, .add 1, .fail 1, .tickStart, .tickEnd, .restart [1],
+      .tickStart, .tickEnd, .tickStart]).2.map (·.ts) = [1000000, 1000000, 2000000] := by decide
+
+/-- … and the first schedule under snapshot semantics. -/
+example : (runWith true true 1000000 (init 1000000) [.add 0, .tickStart, .add 1, .tickEnd, .tickStart, .tickEnd, .tickStart]).2
     = [{ ts := 1000000, recipients := [0] }, { ts := 2000000, recipients := [0, 1] }, { ts := 3000000, recipients := [0, 1] }] := by
   decide
